@@ -1,0 +1,5 @@
+//go:build !verif
+
+package cbreaker
+
+func verifEmit(string, interface{}, ...interface{}) {}
